@@ -73,6 +73,18 @@ def Primary.updateCrc (p : Primary) : Primary :=
 def Canonical.updateCrc (c : Canonical) : Canonical :=
   if c.crcType == 0 then { c with crc := none } else { c with crc := some c.crcValue }
 
+/-- `AbstractBlock.update_crc(keep_existing=True)`: compute only where no value is present. -/
+def Primary.updateCrcKeep (p : Primary) : Primary :=
+  if p.crcType == 0 then { p with crc := none }
+  else match p.crc with
+    | none => { p with crc := some p.crcValue }
+    | some _ => p
+def Canonical.updateCrcKeep (c : Canonical) : Canonical :=
+  if c.crcType == 0 then { c with crc := none }
+  else match c.crc with
+    | none => { c with crc := some c.crcValue }
+    | some _ => c
+
 /-- `AbstractBlock.check_crc()`: type 0 ⇒ valid iff there is no value. -/
 def Primary.checkCrc (p : Primary) : Bool :=
   if p.crcType == 0 then p.crc.isNone else p.crc == some p.crcValue
